@@ -42,7 +42,7 @@ func (c *collector) addPart(partIndex int, data []byte) error {
 	} else {
 		offset = len(data) * partIndex
 	}
-	if offset >= len(c.buf) {
+	if offset < 0 || offset >= len(c.buf) || len(data) > len(c.buf)-offset {
 		return errors.Errorf("invalid offset len=%d for buf of len=%d", offset, len(c.buf))
 	}
 	copy(c.buf[offset:], data)
